@@ -46,6 +46,8 @@ class parse_response(Contract):
         run.assume(z3.And(code >= 0, code < 2 ** 64))
         d['status_code'] = OptInt(run.fresh_bool('no_status_code'), code)
         d['status_text'] = '<text>'
+        for f in nfd_mgmt.ControlParametersValue._encoded_fields:
+            d[f.name] = Opaque('token', f'body.{f.name}')
         run.ghost['resp.status_code'] = d['status_code']
         return d
 
